@@ -1,6 +1,148 @@
+import DdsModel.Enc13
 import DdsModel.Drv.Util
+/-!
+Driver section of C13.  Case line (see harness/src/c13.rs):
+`<class> <fmt> <q> <m> <d> <w> <h> <inprec> <inhex> <wit> <ok3> <blocks>`.
+For every block of `<blocks>` (the blocks `dds::encode` emitted): mode digits, `Enc13.Portable`, and a hash of
+the 16 pixels decoded at 8 bit by the PROVED decoder models (`Bc.decodeBlock`, `Bc7.decodeBlock`; C03, C03x).
+For single-colour classes additionally the bytes predicted by the discrete encoder model.
+-/
+namespace Dds.Drv.C13
+open Dds Dds.Drv Dds.Bc Dds.Enc13
+
+def fmtOfName (s : String) : Option (Fmt × Nat) :=
+  match s with
+  | "bc1" => some (.bc1, 8)
+  | "bc2" => some (.bc2, 16)
+  | "bc2p" => some (.bc2p, 16)
+  | "bc3" => some (.bc3, 16)
+  | "bc3p" => some (.bc3p, 16)
+  | "rxgb" => some (.rxgb, 16)
+  | "bc3n" => some (.bc3n, 16)
+  | "bc4u" => some (.bc4u, 8)
+  | "bc4s" => some (.bc4s, 8)
+  | "bc5u" => some (.bc5u, 16)
+  | "bc5s" => some (.bc5s, 16)
+  | _ => none
+
+def hexVal (c : Char) : Option Nat :=
+  if '0' ≤ c ∧ c ≤ '9' then some (c.toNat - 48)
+  else if 'a' ≤ c ∧ c ≤ 'f' then some (c.toNat - 87)
+  else none
+
+def hexBytes : List Char → Option (List Nat)
+  | [] => some []
+  | a :: b :: rest => do
+    let x ← hexVal a
+    let y ← hexVal b
+    let r ← hexBytes rest
+    some ((x * 16 + y) :: r)
+  | _ => none
+
+/-- same mixing function as `hash_block` in harness/src/c13.rs -/
+def hashVals (vals : List Nat) : UInt32 :=
+  vals.foldl (fun h v =>
+    let h := (h ^^^ v.toUInt32) * 16777619
+    h ^^^ (h >>> 15)) 0x811C9DC5
+
+def hex8 (h : UInt32) : String :=
+  let d := Nat.toDigits 16 h.toNat
+  String.ofList (List.replicate (8 - d.length) '0' ++ d)
+
+def c13Fmt (s : String) : Option (Option Fmt × Nat) :=
+  if s = "bc7" then some (none, 16)
+  else (fmtOfName s).map fun fb => (some fb.1, fb.2)
+
+def c13Quality (s : String) : Option Quality :=
+  match s with
+  | "F" => some .fast
+  | "N" => some .normal
+  | "H" => some .high
+  | "U" => some .unreasonable
+  | _ => none
+
+def colourShape (blk : Nat → Nat) (o : Nat) : Nat :=
+  let c0 := le16 blk o
+  let c1 := le16 blk (o + 2)
+  let uses3 := (List.range 16).any fun p => colourIndex blk o p == 3
+  (if c0 > c1 then 1 else 0) + (if uses3 then 2 else 0) + (if c0 = c1 then 4 else 0)
+
+def bc4Shape (blk : Nat → Nat) (o : Nat) (signed : Bool) : Nat :=
+  let e0 := blk o
+  let e1 := blk (o + 1)
+  let six := if signed then decide (asI8 e0 > asI8 e1) else decide (e0 > e1)
+  let uses67 := (List.range 16).any fun p => bc4Index (fun i => blk (o + i)) p ≥ 6
+  (if six then 1 else 0) + (if uses67 then 2 else 0) + (if e0 = e1 then 4 else 0)
+
+def c13Shape (f : Option Fmt) (blk : Nat → Nat) : String :=
+  match f with
+  | none => toString (Bc7.trailingZeros8 (blk 0))
+  | some .bc1 => toString (colourShape blk 0)
+  | some .bc2 | some .bc2p => toString (colourShape blk 8)
+  | some .bc4u => toString (bc4Shape blk 0 false)
+  | some .bc4s => toString (bc4Shape blk 0 true)
+  | some .bc5u => toString (bc4Shape blk 0 false) ++ toString (bc4Shape blk 8 false)
+  | some .bc5s => toString (bc4Shape blk 0 true) ++ toString (bc4Shape blk 8 true)
+  | some _ => toString (colourShape blk 8) ++ toString (bc4Shape blk 0 false)
+
+/-- `u128::from_le_bytes` -/
+def blockNat (blk : Nat → Nat) : Nat := (List.range 16).foldl (fun acc i => acc + blk i * 256 ^ i) 0
+
+def c13Decode (f : Option Fmt) (blk : Nat → Nat) : List Nat :=
+  match f with
+  | none => (Bc7.decodeBlock (blockNat blk)).flatten
+  | some f => (Bc.decodeBlock f .u8 blk).flatten
+
+def hex2 (v : Nat) : String :=
+  let d := Nat.toDigits 16 (v % 256)
+  String.ofList (List.replicate (2 - d.length) '0' ++ d)
+
+def predString (pieces : List (Nat × List Nat)) : String :=
+  ",".intercalate (pieces.map fun p => toString p.1 ++ ":" ++ String.join (p.2.map hex2))
+
+def runC13 (line : String) : String :=
+  match toks line with
+  | [cls, f, q, m, d, w, h, inprec, inhex, wit, ok3, hex] =>
+    match c13Fmt f, c13Quality q, nat? w, nat? h, hexBytes hex.toList with
+    | some (fmt, bpb), some qual, some w, some h, some bytes =>
+      let nb := ((w + 3) / 4) * ((h + 3) / 4)
+      let bpp := if inprec = "rgba8" then 4 else if inprec = "rgba16" then 8 else if inprec = "rgba32" then 16
+        else if inprec = "rgb8" then 3 else if inprec = "gray8" then 1 else 0
+      if w = 0 ∨ h = 0 ∨ w > 64 ∨ h > 64 ∨ bytes.length ≠ nb * bpb ∨ bpp = 0 ∨ inhex.length ≠ 2 * w * h * bpp
+         ∨ ¬ (m = "U" ∨ m = "P") ∨ ¬ (d = "N" ∨ d = "C" ∨ d = "A" ∨ d = "B")
+         ∨ ¬ (wit = "-" ∨ wit.length = 2 * nb * bpb) then "bad-case" else
+      let masks : Option (List Nat) :=
+        if ok3 = "-" then (if fmt = some .bc1 then none else some (List.replicate nb 0))
+        else if fmt ≠ some .bc1 then none
+        else match hexBytes ok3.toList with
+          | some m => if m.length = 2 * nb then some ((List.range nb).map fun b => m.getD (2 * b) 0 * 256 + m.getD (2 * b + 1) 0) else none
+          | none => none
+      match masks with
+      | none => "bad-case"
+      | some masks =>
+      let arr := bytes.toArray
+      let blkOf (b : Nat) : Nat → Nat := fun i => arr.getD (b * bpb + i) 0
+      let shapes := String.join ((List.range nb).map fun b => c13Shape fmt (blkOf b))
+      let ports := String.join ((List.range nb).map fun b => if Portable fmt (blkOf b) (masks.getD b 0) then "1" else "0")
+      let hashes := String.join ((List.range nb).map fun b => hex8 (hashVals (c13Decode fmt (blkOf b))))
+      -- predictions of the discrete encoder model for single-colour rows of RGBA8 blocks
+      let pred : String :=
+        if (cls = "grey" ∨ cls = "rand1" ∨ cls = "corner") ∧ inprec = "rgba8" ∧ d = "N" ∧ h = 4 ∧ w = 4 * nb then
+          match hexBytes inhex.toList with
+          | some img =>
+            let ia := img.toArray
+            ";".intercalate ((List.range nb).map fun b =>
+              let o := 16 * b
+              let s := predString (predictSingle fmt qual (ia.getD o 0) (ia.getD (o + 1) 0) (ia.getD (o + 2) 0) (ia.getD (o + 3) 0))
+              if s = "" then "-" else s)
+          | none => "bad"
+        else "-"
+      s!"ok {nb} {shapes} {ports} {hashes} {pred}"
+    | _, _, _, _, _ => "bad-case"
+  | _ => "bad-case"
+
+end Dds.Drv.C13
+
 namespace Dds.Drv
-
-def runC13 (_line : String) : String := "not-modelled"
-
+def runC13 : String → String := C13.runC13
 end Dds.Drv
